@@ -64,7 +64,14 @@ func doSearch(ctx context.Context, s search.Search, r searchRoot, depth int, see
 	return searchResult{n, sc, bridge.MovesText(pv), err}
 }
 
-func runC18(cs c18case) string {
+func runC18(cs c18case) (msg string) {
+	// the cases of this check run in parallel in one process, i.e. several engines search at the same
+	// time: a crash caused by state shared between them is a finding, not a harness failure
+	defer func() {
+		if r := recover(); r != nil {
+			msg = fmt.Sprintf("panic while other searches were running in the same process: %v", r)
+		}
+	}()
 	ctx := context.Background()
 	fresh := func() search.Search { s, _, _ := cfgByName(cs.Cfg).Make(); return s }
 	switch cs.Kind {
